@@ -48,6 +48,8 @@ pub enum Act {
     /// appear in the cache directory, where the library itself never puts data packs
     PlantForeignDataPacks,
     ForeignCached,
+    /// a cached snapshot or index entry cannot be read at all (a directory sits under its name)
+    UnreadableCached,
     PlantJunk,
 }
 
@@ -204,6 +206,7 @@ impl SeqModel for C19 {
             v.push(Act::TruncateCached);
             v.push(Act::ExtendCached);
             v.push(Act::ForeignCached);
+            v.push(Act::UnreadableCached);
         }
         if !self.cached_files(&s.cache, "data").is_empty() {
             v.push(Act::ForeignLongerCachedPack);
@@ -357,6 +360,20 @@ impl SeqModel for C19 {
                         // a file of the same name and size from "another repository": different bytes
                         d.iter().map(|b| b ^ 0x5a).collect()
                     });
+                }
+            }
+            Act::UnreadableCached => {
+                // the newest snapshot entry if there is one (read by id and by listing), else an index entry
+                let mut files = self.cached_files(&s.cache, "snapshots");
+                if files.is_empty() {
+                    files = self.cached_files(&s.cache, "index");
+                }
+                files.sort();
+                if let Some(p) = files.last() {
+                    let e = n.cache.get_mut(p).unwrap();
+                    e.kind = "dir".into();
+                    e.data = None;
+                    e.mode = 0o755;
                 }
             }
             Act::ForeignLongerCachedPack => {
